@@ -259,3 +259,32 @@ Theorem C18_ext_limit_proposed : forall i payload r,
   st_bytes i = cut_hdr (neg32 (Z.of_nat (length payload))) ++ payload ++ r ->
   exists j, parse_normal true true i = ROk (MCutExt payload) j /\ st_bytes j = r /\ st_eof j = st_eof i.
 Proof. exact parse_cut_ext_slack. Qed.
+
+(* ---- the client's write loop (libvncclient WriteToRFBServer) ---------------------------
+   For every schedule of the kernel's answers to the successive write() calls - short writes of
+   any size, EAGAIN any number of times (each followed by a select() that reports the socket
+   writable) - the bytes handed to the kernel, in order, are exactly the buffers of the Send*
+   call, and the call reports success.  (What SendClientCutText / SendClientCutTextUTF8 put on
+   the wire therefore is what C18_classic_c2s / C18_ext_c2s assume, whatever the socket does.) *)
+Theorem C18_client_write_complete : forall parts sched acc,
+  Forall (fun k => 0 <= k) sched ->
+  exists rest, lvc_write_all sched parts acc = (acc ++ concat parts, rest, true).
+Proof. exact lvc_write_all_complete. Qed.
+
+Theorem C18_client_write_cut_text : forall text,
+  concat (lvc_send_cut_parts text) = lvc_send_cut text.
+Proof. exact send_cut_parts_concat. Qed.
+
+Theorem C18_client_write_utf8 : forall zsync l text,
+  option_map (@concat Z) (lvc_send_utf8_parts zsync l text) = lvc_send_utf8 zsync l text.
+Proof. exact send_utf8_parts_concat. Qed.
+
+(* after an error other than EAGAIN the call fails and a prefix of the buffer is on the wire *)
+Theorem C18_client_write_prefix : forall sched buf acc,
+  exists pre suf, fst (fst (lvc_write sched buf acc)) = acc ++ pre /\ buf = pre ++ suf.
+Proof. exact lvc_write_prefix. Qed.
+
+Example C18_client_write_complete_nonvacuous :
+  lvc_write_all [1; 0; 0; 3; 0; 1000] (lvc_send_cut_parts [104; 105]) []
+  = (lvc_send_cut [104; 105], [], true).
+Proof. vm_compute. reflexivity. Qed.
